@@ -41,6 +41,18 @@ inline C16CapD operator- (C16CapD a, C16CapD b) { return C16CapD (a.v - b.v); }
 inline C16CapD operator* (C16CapD a, C16CapD b) { return C16CapD (a.v * b.v); }
 inline C16CapD operator/ (C16CapD a, C16CapD b) { return C16CapD (a.v / b.v); }
 inline C16CapD operator- (C16CapD a) { return C16CapD (-a.v); }
+inline bool operator< (C16CapD a, C16CapD b) { return a.v < b.v; }
+inline bool operator> (C16CapD a, C16CapD b) { return a.v > b.v; }
+namespace std
+{
+// DepthToZExc's guards read numeric_limits<T>::max ()
+template <> class numeric_limits<C16CapD>
+{
+public:
+    static constexpr bool is_specialized = true;
+    static C16CapD max () { return C16CapD (numeric_limits<double>::max ()); }
+};
+}
 template <class T> struct C16Long;
 template <> struct C16Long<symns::Sym>
 {
@@ -50,6 +62,7 @@ template <> struct C16Long<symns::Sym>
     static symns::Sym last () { return symns::longCasts ().empty () ? symns::Sym (0) : symns::longCasts ().back (); }
     static long       trunc (symns::Sym) { return 0; }
     static long       vsPlainDouble (S, S, S, S, S, S, bool, S, long, long, long) { return 0; }
+    static long       vsPlainDoubleExc (S, S, S, S, S, S, bool, S, long, long, long) { return 0; }
 };
 template <> struct C16Long<double>
 {
@@ -62,6 +75,10 @@ template <> struct C16Long<double>
     static long vsPlainDouble (double n, double f, double l, double r, double t, double b, bool o, double depth, long zmin, long zmax, long z)
     {
         return z - Frustum<double> (n, f, l, r, t, b, o).DepthToZ (depth, zmin, zmax);
+    }
+    static long vsPlainDoubleExc (double n, double f, double l, double r, double t, double b, bool o, double depth, long zmin, long zmax, long z)
+    {
+        return z - Frustum<double> (n, f, l, r, t, b, o).DepthToZExc (depth, zmin, zmax); // (reached only when the wrapper instantiation did not throw)
     }
 };
 template <> struct C16Long<float> : C16Long<double> {}; // (not run: EXTRACT_D)
